@@ -436,12 +436,19 @@ def trace_resumed(sseed, kind, handoff, phase):
     import shutil
     R = random.Random(sseed)
     with tempdir("ktt") as d:
-        specs = gen.rand_specs(R, finite=(kind == "grid" or R.random() < 0.7), maxdepth=2, top=(1, 2))
+        specs = gen.rand_specs(R, finite=(kind == "grid" or (kind != "bayes" and R.random() < 0.7)), nonfixed=(kind == "bayes"), maxdepth=2, top=(1, 2))
         over = dict(max_epochs=R.randint(2, 6), factor=2, iterations=1) if kind == "hyperband" else (dict(max_trials=R.randint(6, 14)) if kind == "random" else {})
+        if kind == "bayes":
+            # the model-based phase must be reached after the hand-over: continuous dimensions, few initial points
+            specs.append({"name": "lr", "kind": "float", "conds": [], "lo": 0.001, "hi": 1.0, "step": None, "sampling": "log", "default": None})
+            specs.append({"name": "mom", "kind": "float", "conds": [], "lo": 0.0, "hi": 1.0, "step": None, "sampling": "linear", "default": None})
+            over = dict(max_trials=R.randint(7, 9), num_initial_points=2)
         o = gen.make_oracle(R, kind, specs, d, seed=R.choice([0, 5, R.randint(0, 999)]), max_consecutive_failed_trials=6, **over)
         palette = R.choice([[1], [1, 1, 1, 2, 0.5], [1, 2]])
         ntun = R.randint(1, 3)
         k1, k2 = R.randint(3, 25), R.randint(6, 40)
+        if kind == "bayes":
+            k1, k2 = R.randint(8, 14), R.randint(10, 16)
         kw = dict(score_of=lambda R_, t: float(R_.choice(palette)), outcomes=["C"] * 6 + ["INV", "FAIL"], ntuners=ntun)
         if phase == "whole":
             run_schedule(o, R, steps=k1, **kw)
@@ -543,7 +550,7 @@ def run(seed, tier, n=None, subprocs=None, modes=("random", "random", "hyperband
     # ... and searches that are stopped and RESUMED in a fresh interpreter (what is written to oracle.json must mean the same there)
     for k in range(subprocs):
         with tempdir("kth") as hd:
-            batch = [(R.randrange(1 << 30), ("random", "hyperband", "random", "grid", "random", "hyperband")[j % 6], os.path.join(hd, f"h{j}")) for j in range(batch_n)]
+            batch = [(R.randrange(1 << 30), ("random", "hyperband", "bayes", "grid", "random", "hyperband")[j % 6], os.path.join(hd, f"h{j}")) for j in range(batch_n)]
             here = [json.dumps(trace_resumed(ss, kd, h, "whole"), default=str) for ss, kd, h in batch]
             env = dict(os.environ, PYTHONHASHSEED=str(2 + (batch[0][0] % 1000)), KT_REPO=REPO)
             p = subprocess.run([sys.executable, "-c",
